@@ -3,11 +3,52 @@ SPEC = {
     'harness': 'hC01',
     'coq_dir': 'C01',
     'claimed': False,
-    'theorems': ['C01_rotate_right_elements'],
+    'theorems': [
+        'C01_set_preserves_order', 'C01_set_preserves_avl', 'C01_get_set', 'C01_get_is_lookup',
+        'C01_traverse_range', 'C01_iterate_range', 'C01_root_identifies_tree', 'C01_save_monotone',
+        'C01_load_save', 'C01_state_sorted', 'C01_state_last_write', 'C01_versioned_map',
+    ],
     'allowed_axioms': [],
     'shard': 4,
-    'rule': 'TODO',
-    'trusted_base': [],
-    'assumptions': [],
-    'harness_timeout': {'quick': 300, 'thorough': 3000},
+    'rule': 'one case = one history of committed batches run against the real mavl store on a temporary LevelDB '
+            '(commit through Store.Set, through the Tree API, or through MemSet+Commit, chosen per batch; '
+            'EnableMavlPrefix on for a third of the histories; first parent root nil or 32 zero bytes). '
+            'Streams: every insertion order of 4 keys incl. the empty key (24 histories; thorough: 5 keys, 120), '
+            'small (1-4 batches x 1-8 writes), medium (2-10 x 1-25), large (5-20 x 10-60, <= 500 writes). '
+            'Keys from a 6-byte alphabet {00,01,61,62,fe,ff} behind shared prefixes ("", "mavl-coins-bty-", "a", 00, ff, ffff ...), '
+            'the empty key, single bytes; ~30 % overwrites, 1/8 same-value rewrites, 1/10 batches re-commit the previous '
+            'batch (equal roots), 1/15 empty batches, empty values. After every batch: probe of the new root '
+            '(Size, Height, node structure in pre-order via the hook dump, Tree.Get index/value + Tree.Has + Store.Get '
+            'for every key of the history and absent neighbours, GetByIndex incl. out-of-range indices, 8-10 range '
+            'iterations with nil/empty/existing/absent bounds, both directions, inclusive and exclusive, stop-after-n), '
+            're-probe of every older root (must be identical), root-hash coincidence class, number of database '
+            'bindings; then close + reopen and probe every root again. '
+            'non-trivial = at least 2 batches and a final tree of >= 3 leaves; distinct = distinct Gallina case terms',
+    'trusted_base': [
+        'SHA-256 over the protobuf encoding of LeafNode/InnerNode is idealised as a free term algebra (symbolic hash; '
+        'injective). What is hashed follows node.go: leaf = (key, value, height 0, size 1); inner = (height, size, '
+        'left hash, right hash) - the inner key is NOT hashed, which is why the store theorems carry the "keyed" invariant',
+        'LevelDB (goleveldb) and the ARC node cache are oracles: the model database is a finite map; durability across '
+        'a crash is C29',
+        'Go-side comparison "an older root still probes identically" is computed by the harness (string equality of the '
+        'rendered probe) and enters the case as a boolean; the first probe of each root and the probes after reopening '
+        '(all roots for small histories, two roots for large ones) are compared in the kernel',
+        'hook /repo/system/store/mavl/db/dump_verif.go (read-only pre-order dump) is used to observe the shape',
+    ],
+    'assumptions': [
+        'heights/sizes are int32 in Go and Z in the model: no overflow below 2^31 leaves',
+        'the model materialises a version completely on load and skips saving a sub-tree whose hash is already bound; '
+        'Go loads lazily and skips nodes flagged persisted - same resulting map (binding counts are compared)',
+        'EnableMVCC, EnableMavlPrune, EnableMemTree are out of scope here (C02, C05); EnableMavlPrefix is exercised '
+        'on the implementation side against the same model (it only changes database keys)',
+        'remove/DelKVPair is modelled (Model.remove) but not on the block path (Store.Del is a stub); no theorem yet',
+    ],
+    'manifest': {
+        'level_text': 'full for the sequential store: unbounded Coq theorems for set/get/range/save/load and the '
+                      'versioned-map theorem over all batch histories; remove is modelled but unproved',
+        'level_note': 'symbolic (injective) hash; LevelDB and the node cache as oracles; shape observed through an add-only dump hook',
+        'technique': 'Coq proof (structural induction on trees, invariant over batch histories, content-addressed '
+                     'database refinement) + in-kernel correspondence check on generated histories',
+    },
+    'harness_timeout': {'quick': 600, 'thorough': 6000},
 }
